@@ -182,4 +182,112 @@ def fromDataframe {R} (df : List FrameRow) : Catalog R :=
     catalogId := match df with | [] => none | r :: _ => r.catalogId,
     name := none, region := none }
 
+/-! ## round 4
+
+### `write_ascii(id_col=…)` when the catalog array has no such column (catalogs.py:339-342, :353-356)
+
+`self.catalog[id_col]` raises ValueError, the event-id cells are written empty (`[''] * event_count`; a `str` has no
+`decode`: the AttributeError branch), and the reader numbers such records by their index in the file (readers.py:
+`if not event_id: event_id = int(i)`). -/
+
+/-- the record written for an event when there is no id column -/
+def rowOfNoId {F} (c : FloatCodec F) (catId : Option Int) (e : Event) : Row F :=
+  { rowOf c catId e with evId := [] }
+
+/-- `write_ascii(filename, write_header, write_empty, append, id_col)`; `hasIdCol` = the array has a field `id_col` -/
+def writeAsciiG {F R} (c : FloatCodec F) (cat : Catalog R) (writeHeader writeEmpty append : Bool)
+    (old : List (Line F)) (hasIdCol : Bool) : List (Line F) :=
+  let base := if append then old else []
+  let row := fun e => Line.row (if hasIdCol then rowOf c cat.catalogId e else rowOfNoId c cat.catalogId e)
+  if writeHeader then
+    if writeEmpty && cat.events.isEmpty then base ++ [Line.header]
+    else base ++ [Line.header] ++ cat.events.map row
+  else base ++ cat.events.map row
+
+/-- what the reader makes of events whose id cells are empty: the id is the decimal index of the record in the file -/
+def renumber : Nat → List Event → List Event
+  | _, [] => []
+  | i, e :: es => { e with id := storeId (natDigits (i + 1) i) } :: renumber (i + 1) es
+
+/-! ### the spatial region's own dict form, concretely (regions.py:689 `CartesianGrid2D.to_dict`, :699 `from_dict`;
+    catalogs.py:174-182 the region branch of `from_dict`) -/
+
+/-- a `CartesianGrid2D` as far as its dict form and the binning of points are concerned -/
+structure Region where
+  origins : List (Rat × Rat)         -- (lon, lat) of every polygon's origin, in the region's index order
+  dh : Rat
+  name : Option (List Char)
+  magnitudes : Option (List Rat)     -- NOT part of the dict form
+deriving DecidableEq, Repr
+
+/-- the keys of the dict form; `none` = key absent (hand-written dicts, other region classes) -/
+structure RegionDict where
+  name : Option (List Char)
+  dh : Option Rat
+  polygons : Option (List (Rat × Rat))     -- `{'lat': …, 'lon': …}` as (lat, lon)
+  classId : Option (List Char)
+deriving DecidableEq, Repr
+
+def cartesianId : List Char := "CartesianGrid2D".toList
+
+/-- `str(self.name)` -/
+def pyStrName : Option (List Char) → List Char
+  | none => "None".toList
+  | some s => s
+
+/-- regions.py:689 -/
+def Region.toDict (r : Region) : RegionDict :=
+  { name := some (pyStrName r.name), dh := some r.dh, polygons := some (r.origins.map (fun o => (o.2, o.1))),
+    classId := some cartesianId }
+
+inductive RegErr where
+  | attributeError      -- "cannot create region object without origins" / "… without dh"
+  | keyError            -- `region_loader[class_id]` for a class that is not registered
+deriving DecidableEq, Repr
+
+/-- regions.py:699 `CartesianGrid2D.from_dict` → `from_origins(origins, dh, magnitudes=adict.get('magnitudes'), name)` -/
+def Region.fromDict (d : RegionDict) : Except RegErr Region :=
+  match d.polygons with
+  | none => .error .attributeError
+  | some ps =>
+    match d.dh with
+    | none => .error .attributeError
+    | some dh => .ok { origins := ps.map (fun p => (p.2, p.1)), dh := dh, name := some (d.name.getD cartesianId),
+                       magnitudes := none }
+
+/-- catalogs.py:174-182: `class_id = adict['region'].get('class_id')` (None → 'CartesianGrid2D'),
+    `region_loader[class_id].from_dict(…)`, `except AttributeError: pass` (also swallows `None.get`) -/
+def loadRegion (rd : Option RegionDict) : Except RegErr (Option Region) :=
+  match rd with
+  | none => .ok none
+  | some d =>
+    if d.classId.getD cartesianId = cartesianId then
+      match Region.fromDict d with
+      | .ok r => .ok (some r)
+      | .error .attributeError => .ok none
+      | .error e => .error e
+    else .error .keyError
+
+/-- `to_dict` / `from_dict` of a catalog with the region's dict form spelled out -/
+def toDictC (cat : Catalog Region) : CatDict RegionDict := toDict Region.toDict cat
+
+def fromDictC (d : CatDict RegionDict) : Except RegErr (Catalog Region) :=
+  match loadRegion d.region with
+  | .error e => .error e
+  | .ok r => .ok { events := d.catalog.map tupleEvent, catalogId := d.catalogId, name := d.name, region := r }
+
+/-- the cell a point falls in: the first polygon whose half-open square `[lon, lon+dh) × [lat, lat+dh)` holds it
+    (exact-layer meaning of `region.get_index_of`, C01) -/
+def Region.cellOf (r : Region) (lon lat : Rat) : Option Nat :=
+  let i := r.origins.findIdx (fun o => decide (o.1 ≤ lon ∧ lon < o.1 + r.dh ∧ o.2 ≤ lat ∧ lat < o.2 + r.dh))
+  if i < r.origins.length then some i else none
+
+/-- events per cell (`catalog.spatial_counts()` at the exact layer) -/
+def cellCounts (r : Region) (evs : List Event) : List Nat :=
+  (List.range r.origins.length).map (fun i => (evs.filter (fun e => r.cellOf e.lon e.lat = some i)).length)
+
+/-- what a region looks like after its dict form: same polygons, same spacing; the name went through `str()`;
+    magnitude bins are not carried -/
+def Region.afterDict (r : Region) : Region := { r with name := some (pyStrName r.name), magnitudes := none }
+
 end Persist
